@@ -34,6 +34,8 @@ pub struct Behaviour {
     pub thorough: usize,
     pub batch: usize,
     pub assumptions: &'static [&'static str],
+    /// number of generated units that are additionally run under Miri in the thorough tier (0 = none)
+    pub miri_units: usize,
 }
 
 thread_local! {
@@ -266,6 +268,37 @@ pub fn run(ctx: &Ctx, b: &Behaviour) -> i32 {
         }
     }
     check::clean_work(&tag);
+    // ---- Miri lane (thorough tier): undefined behaviour that happens to give the right answer is still a failure
+    if b.miri_units > 0 && (ctx.thorough() || std::env::var("VERIF_MIRI").is_ok()) {
+        let small: Vec<&(usize, Prepared)> = prepared.iter().filter(|(_, p)| p.spec.variants.len() <= 6 && p.unit.body.len() < 20000).take(b.miri_units).collect();
+        let units: Vec<Unit> = small.iter().map(|(_, p)| p.unit.clone()).collect();
+        match engine::miri_run(&format!("{}-miri", b.prop), &units) {
+            Ok((stdout, stderr, ok)) => {
+                let ran = stdout.lines().filter(|l| l.starts_with("T ")).count();
+                rep.count("miri_units_run", ran as u64);
+                let fails: Vec<&str> = stdout.lines().filter(|l| l.starts_with("F ")).collect();
+                if !ok || !fails.is_empty() {
+                    let ub = stderr.lines().filter(|l| l.contains("Undefined Behavior") || l.contains("error:")).take(4).collect::<Vec<_>>().join(" | ");
+                    if stderr.contains("Undefined Behavior") || !fails.is_empty() {
+                        // attribute to the unit that was running: the last started one
+                        let idx = ran.min(units.len().saturating_sub(1));
+                        let (ti, p) = small[idx];
+                        rep.violations.push(Failure {
+                            msg: format!("under Miri: {} {}", ub, fails.iter().take(3).cloned().collect::<Vec<_>>().join(" ; ")),
+                            dna: trees[*ti].current(),
+                            variant: "miri".into(),
+                            source: p.spec.render_def(),
+                            unit_body: Some(p.unit.body.clone()),
+                        });
+                    } else {
+                        rep.inconclusive.push(format!("the Miri lane did not complete: {}", stderr.lines().rev().take(5).collect::<Vec<_>>().join(" / ")));
+                    }
+                }
+            },
+            Err(e) => rep.inconclusive.push(e.0),
+        }
+        check::clean_work(&format!("{}-miri", b.prop));
+    }
     rep.finish()
 }
 
